@@ -99,14 +99,15 @@ def work(job):
                 ops = ['step0'] * k + ['recv ' + rng.choice(['e1', 'e2', 'e3'])] + ['step0'] * mid + ['cancel'] + ['step0'] * 12
                 jobs.append((jid, T.job_text(jid, eng, xml, ops=ops, flags=['novars'])))
             else:
-                jobs.append((jid, T.job_text(jid, eng, xml, h, flags=['novars'] + (['drain'] if mode == 'delayed' else []))))
+                fl = ['novars'] + (['drain'] if mode == 'delayed' else []) + ([rng.choice(['lambda-after', 'lambda-before'])] if mode == 'lambda' else [])
+                jobs.append((jid, T.job_text(jid, eng, xml, h, flags=fl)))
             meta[jid] = (cid, eng, dm, mode, xml, h)
     raw = T.run_jobs(binary, jobs)
     out = []
     for jid, (cid, eng, dm, mode, xml, h) in meta.items():
         r = raw.get(jid, {'lines': [], 'crash': 'no result', 'timeout': False})
         rec = {'id': jid, 'mode': mode, 'dm': dm, 'v': 'ok'}
-        lines = [l for l in r['lines'] if not l.startswith('B ') and not l.startswith('M2 ')]
+        lines = [l for l in r['lines'] if not l.startswith('B ') and not l.startswith('M2 ') and not l.startswith('LM ')]
         if r['timeout']: rec['v'] = 'timeout'; out.append(rec); continue
         if r['crash']:
             rec['v'] = 'bad'; rec['k'] = 'crash:' + str(r['crash'])[:80]; rec['replay'] = {'xml': xml, 'history': h, 'engine': eng, 'mode': mode, 'stderr': r.get('stderr')}
@@ -134,6 +135,18 @@ def work(job):
                 elif [l for l in m2_in if l[:2] in CB] != m1_in:
                     i = next((i for i, (x, y) in enumerate(zip(m2_in, m1_in)) if x != y), min(len(m2_in), len(m1_in)))
                     V = [('second-monitor-sees-a-different-account', a, 'first difference at callback %d: first monitor %r, second %r (%d vs %d callbacks)' % (i, m1_in[i:i + 1], m2_in[i:i + 1], len(m1_in), len(m2_in)))]
+        if not V and mode == 'lambda':
+            # the lambda front end (Interpreter::on()) registered for all 'before' or all 'after' notices: its account is the monitor's, restricted to those
+            lm = [l[3:] for l in r['lines'] if l.startswith('LM ')]
+            side = 'A' if any(l[:2] in ('MA', 'NA', 'XA', 'TA', 'CA', 'KA') for l in lm) or not any(l[:2] in ('MB', 'NB', 'XB', 'TB', 'CB', 'KB') for l in lm) else 'B'
+            codes = set(c + side for c in 'MNXTCIUK')
+            norm = lambda l: l.split(' ')[0] if l[:2] in ('MA', 'MB', 'KA', 'KB') or l[:1] == 'S' else (l.rsplit(' ', 1)[0] if l.startswith('E ') else l)
+            want = [norm(l) for l in r['lines'] if not l.startswith(('LM ', 'B ', 'M2 ')) and (l.split(' ')[0] in codes or l.startswith(('E ', 'S ')) or l == 'S')]
+            got = [l if l.startswith('E ') else norm(l) for l in lm]
+            rec['lambda_callbacks_compared'] = len(want)
+            if want != got:
+                i = next((i for i, (x, y) in enumerate(zip(want, got)) if x != y), min(len(want), len(got)))
+                V = [('lambda-monitor-account-differs', i, 'registered for the %s notices: expected %r, got %r (%d vs %d callbacks)' % ('after' if side == 'A' else 'before', want[i:i + 2], got[i:i + 2], len(want), len(got)))]
         if V:
             rule, n, text = V[0]
             rec['v'] = 'bad'; rec['k'] = rule
@@ -158,7 +171,7 @@ def main(tier, replay):
     cases = []
     for i in range(n):
         dm = ('lua', 'promela', 'null')[i % 3] if i % 7 else 'null'
-        mode = ('plain', 'error', 'plain', 'cancel', 'error', 'invoke', 'delayed', 'monitors')[i % 8]
+        mode = ('plain', 'error', 'plain', 'cancel', 'error', 'invoke', 'delayed', 'monitors', 'lambda')[i % 9]
         cases.append(('c%d' % i, base + i, dm, mode))
     jobs = [(binary, cases[i:i + 30]) for i in range(0, len(cases), 30)]
     verd = collections.Counter(); tot = collections.Counter()
